@@ -1,9 +1,10 @@
+import json, os
 import vlib
 
 CFG = dict(
-    imports=["From Verif.C10 Require Import Nf Model Spec.", "Open Scope N_scope."],
-    checker="check_case",
-    n=dict(quick=400, thorough=12000),
+    imports=["From Verif.C10 Require Import Nf Model Spec MapsModel MapsSpec.", "Open Scope N_scope."],
+    checker="check_any",
+    n=dict(quick=420, thorough=13000),
     shard=50,
     rule="interface-name sets (0-21 names, <=15 bytes) built from workload prefixes / host-style bases with tiny alphabets "
          "so that shared prefixes, names that are prefixes of others, one-char suffixes and duplicates are common; both "
@@ -23,8 +24,61 @@ CFG = dict(
                  "EndpointChainName is injective on the names of one case (checked by the driver on every case)"],
 )
 
+NFT_PKG = "./felix/nftables/"
+
+
+def _build(ctx, harness_dirs=None, pkg=None, tags="verif", timeout=2400):
+    """Two drivers: the stand-alone renderer driver (part 1) and the in-package test binary of felix/nftables
+    (part 2: the fake nft lives in that package's _test.go files)."""
+    import subprocess
+    exe, log = _orig_go_build(ctx, harness_dirs, pkg, tags, timeout)
+    if exe is None:
+        return None, log
+    ov = vlib.make_overlay(ctx, harness_dirs)
+    texe = os.path.join(ctx.build, "driver_maps.test")
+    if os.path.exists(texe):
+        os.remove(texe)
+    r = subprocess.run(["timeout", str(timeout), "go", "test", "-c", "-tags", tags, "-overlay", ov, "-vet=off", "-o", texe, NFT_PKG],
+                       cwd=ctx.repo, env=vlib.go_env(), stdout=subprocess.PIPE, stderr=subprocess.STDOUT, text=True)
+    if r.returncode != 0 or not os.path.exists(texe):
+        return None, log + "\n" + r.stdout
+    return exe, log
+
+
+def _run(ctx, exe, args, timeout=3600, env=None):
+    import subprocess
+    n, seed = int(args[1]), int(args[3])
+    n_maps = max(20, n // 7)
+    lines = _orig_run_driver(ctx, exe, ["-n", n - n_maps, "-seed", seed], timeout=timeout, env=env)
+    for l in lines:
+        if "coq" in l:
+            l["coq"] = "(CDispatch %s)" % l["coq"]
+            l.setdefault("tags", []).append("part:rendering")
+    out = os.path.join(ctx.build, "maps_cases.jsonl")
+    if os.path.exists(out):
+        os.remove(out)
+    e = vlib.go_env()
+    e.update(VERIF_C10_OUT=out, VERIF_C10_SEED=str(seed), VERIF_C10_N=str(n_maps))
+    r = subprocess.run(["timeout", str(timeout), os.path.join(ctx.build, "driver_maps.test"), "-test.run", "^TestVerifC10Maps$", "-test.count=1"],
+                       cwd=ctx.build, env=e, stdout=subprocess.PIPE, stderr=subprocess.STDOUT, text=True)
+    if r.returncode != 0 or not os.path.exists(out):
+        raise RuntimeError("maps driver failed (%d): %s" % (r.returncode, r.stdout[-3000:]))
+    for l in open(out):
+        if l.startswith("{"):
+            d = json.loads(l)
+            d["coq"] = "(CMaps %s)" % d["coq"]
+            lines.append(d)
+    return lines
+
+
 def run(ctx):
-    return vlib.standard_flow(ctx, CFG)
+    global _orig_go_build, _orig_run_driver
+    _orig_go_build, _orig_run_driver = vlib.go_build, vlib.run_driver
+    vlib.go_build, vlib.run_driver = _build, _run
+    try:
+        return vlib.standard_flow(ctx, CFG)
+    finally:
+        vlib.go_build, vlib.run_driver = _orig_go_build, _orig_run_driver
 
 
 def replay(ctx, path):
@@ -42,9 +96,13 @@ def replay(ctx, path):
     v = os.path.join(ctx.build, "replay_case.v")
     with open(v, "w") as f:
         f.write("From Coq Require Import List NArith.\nImport ListNotations.\n" + "\n".join(CFG["imports"]) + "\nFrom Verif.C10 Require Import Diag.\n")
-        f.write("Definition c : case := %s.\n" % case["coq"])
+        f.write("Definition c : anycase := %s.\n" % case["coq"])
         f.write("Set Printing Width 200.\nSet Printing Depth 100000.\n")
-        f.write("Eval vm_compute in (check_case c).\nEval vm_compute in (diagnose c).\n")
+        f.write("Eval vm_compute in (check_any c).\n")
+        if case["coq"].startswith("(CDispatch"):
+            f.write("Eval vm_compute in (match c with CDispatch d => diagnose d | _ => [] end).\n")
+        else:
+            f.write("Eval vm_compute in (match c with CMaps m => (model_obs m, mc_obs m) | _ => ([], []) end).\n")
     ok, out = vlib.coqc(v)
     print(out[-6000:])
     return 0 if ok else 1
